@@ -237,7 +237,9 @@ func runC14(c *Ctx) {
 			other := mkKey("other", new(big.Int).Add(k.d, big.NewInt(1)))
 			if other.d.Cmp(new(big.Int).Sub(ref.N, big.NewInt(1))) < 0 {
 				var fder []byte
-				mon.Guard(func() { fder, err = gx509.MarshalSm2UnecryptedPrivateKey(&sm2.PrivateKey{D: k.d, PublicKey: *other.pub()}) })
+				mon.Guard(func() {
+					fder, err = gx509.MarshalSm2UnecryptedPrivateKey(&sm2.PrivateKey{D: k.d, PublicKey: *other.pub()})
+				})
 				if err == nil && fder != nil {
 					var fb *sm2.PrivateKey
 					var ferr error
